@@ -339,12 +339,31 @@ unsafe fn raw_openat(dirfd: c_int, path: *const c_char, flags: c_int, mode: mode
     libc::syscall(libc::SYS_openat, dirfd as c_long, path, flags as c_long, mode as c_long) as c_int
 }
 
+/// target of a symbolic link (one level), None when `path` is not a link
+unsafe fn read_link_raw(dirfd: c_int, path: *const c_char) -> Option<String> {
+    let e = get_errno();
+    let mut buf = [0u8; 512];
+    let n = libc::syscall(libc::SYS_readlinkat, dirfd as c_long, path, buf.as_mut_ptr(), buf.len() as c_long);
+    set_errno(e);
+    if n <= 0 {
+        return None;
+    }
+    Some(String::from_utf8_lossy(&buf[..n as usize]).to_string())
+}
+
 unsafe fn do_open(dirfd: c_int, path: *const c_char, flags: c_int, mode: mode_t) -> c_int {
     let Some((st, _g)) = enter() else {
         return raw_openat(dirfd, path, flags, mode);
     };
     let p = CStr::from_ptr(path).to_string_lossy().to_string();
-    let id = st.path_id(&p);
+    let mut id = st.path_id(&p);
+    // a symbolic link inside the sandbox (e.g. /dev/disk/by-* style names for a device): the
+    // properties of the file it points to apply, unless the open itself does not follow links
+    if st.paths[id].in_sandbox && flags & libc::O_NOFOLLOW == 0 {
+        if let Some(target) = read_link_raw(dirfd, path) {
+            id = st.path_id(&target);
+        }
+    }
     if st.crashed && st.paths[id].in_sandbox {
         set_errno(libc::EIO);
         return -1;
@@ -677,7 +696,13 @@ pub unsafe extern "C" fn statx(dirfd: c_int, path: *const c_char, flags: c_int, 
             st.fds.get(&dirfd).copied().unwrap_or(usize::MAX)
         } else {
             let p = CStr::from_ptr(path).to_string_lossy().to_string();
-            st.path_id(&p)
+            let mut id = st.path_id(&p);
+            if st.paths[id].in_sandbox && flags & libc::AT_SYMLINK_NOFOLLOW == 0 {
+                if let Some(target) = read_link_raw(dirfd, path) {
+                    id = st.path_id(&target);
+                }
+            }
+            id
         };
         if r == 0 {
             patch_statx(st, id, buf);
